@@ -125,6 +125,11 @@ theorem pubCalls_seen (topic payload : Str) (qos : Int) :
     (pubCalls topic payload qos).map Call.published = [some (topic, payload, qos)] := by
   cases payload <;> simp [pubCalls, GenMqttObj.client_publish, Call.published, List.lookup, LO.truthy, LO.kwSet]
 
+/-- It never asks the broker to retain the message. -/
+theorem pubCalls_not_retained (topic payload : Str) (qos : Int) :
+    (pubCalls topic payload qos).all (fun c => !c.retained) = true := by
+  cases payload <;> simp [pubCalls, GenMqttObj.client_publish, Call.retained, List.lookup, LO.truthy, LO.kwSet]
+
 theorem client_publish_eq (w : World) (topic payload : Str) (qos : Int) (pub : Outcome) :
     GenMqttObj.client_publish topic payload qos pub w =
       if w.o.client then
@@ -341,7 +346,7 @@ theorem gather_ne_nil (cs : List (Outcome → OM Unit)) (outs : List Outcome) (h
   | nil => exact absurd rfl h
   | cons c cs => rfl
 
-/-- Did `_connect` get through (guard passed, `__aenter__` returned or its exception was not converted … no: returned)? -/
+/-- Did `_connect` get through (its guard passed and `__aenter__` returned)? -/
 def connected (s : OState) (aenter : Outcome) : Bool :=
   !(s.client || s.task.isSome) &&
     (match convert (clause Gen.excMqttConnect 0) MqttExn.transportError aenter with | .ok () => true | .error _ => false)
@@ -464,5 +469,46 @@ theorem handle_incoming_eq (w : World) (e : Evt) :
             simp [LO.Incoming.event, oStep, ht, taskStep, onMessage, hd, hc, incoming_catch0, incoming_raise,
               GenMqttObj.handle_incomingBody, receive_error_eq, enqueue, qRun,
               show GenMqttObj.handle_incoming.body = GenMqttObj.handle_incomingBody from rfl]
+
+/-! ### Histories of the object through the generated methods -/
+
+/-- One operation of the model's alphabet (`OOp`), carried out by the generated methods (`_subscribe` called
+directly: the model's operation does not say on which topic). -/
+def genStep (inPre : Str) (w : World) : OOp → World
+  | .connect aenter subs aexit => (GenMqttObj.connect inPre aenter subs aexit w).2
+  | .disconnect aexit => (GenMqttObj.disconnect aexit w).2
+  | .broker e => (GenMqttObj.handle_incoming.event e w).2
+  | .read => (GenMqttObj.read w).2
+  | .write p l pub => (GenMqttObj.write p l pub w).2
+  | .subscribe sub => (GenMqttObj.client_subscribe [] 0 sub w).2
+
+/-- The outcomes of the subscribe calls of a `connect` matched to the calls the code makes. -/
+def padOp : OOp → OOp
+  | .connect aenter subs aexit => .connect aenter (pad GenMqttObj.connectTopics.length subs) aexit
+  | op => op
+
+/-- **Every operation** leaves the object in the state the model's `oStep` says. -/
+theorem genStep_state (inPre : Str) (w : World) (op : OOp) : (genStep inPre w op).o = (oStep w.o (padOp op)).1 := by
+  cases op with
+  | connect aenter subs aexit => simp only [genStep, padOp, connect_eq, oStep]
+  | disconnect aexit => simp only [genStep, padOp, disconnect_eq, oStep]
+  | broker e => simp only [genStep, padOp, handle_incoming_eq]
+  | read => simp only [genStep, padOp, read_eq, oStep]
+  | write p l pub =>
+    simp only [genStep, padOp, write_eq, oStep]
+    cases toTopic p l <;> simp only []
+    split <;> rfl
+  | subscribe sub =>
+    simp only [genStep, padOp, client_subscribe_eq, oStep]
+    split <;> rfl
+
+/-- **Every history**: the object after any sequence of operations carried out by the generated methods is the
+model's `oRun` (so what C18 proves of `oRun` — the object invariant, delivery in arrival order exactly once across
+sessions, a clean object after `disconnect` — holds of the methods as translated on this run). -/
+theorem genRun_state (inPre : Str) (ops : List OOp) (w : World) :
+    (ops.foldl (genStep inPre) w).o = oRun w.o (ops.map padOp) := by
+  induction ops generalizing w with
+  | nil => rfl
+  | cons op ops ih => simp only [List.foldl_cons, List.map_cons, oRun, ih, genStep_state]
 
 end AioMySensors.MqttObjectBodiesEq
